@@ -83,15 +83,20 @@ func TimeFromTime64(t Time64, t0 time.Time) time.Time {
 
 	// If the timestamp would be too far in the past relative to
 	// the reference time, assume it's from the next era
-	if sec < tref-secondsPerEra/2 {
+	// nsec := (int64(t.Fraction)*nanosecondsPerSecond + 1<<31) >> 32
+	nsec := int64(t.Fraction) * nanosecondsPerSecond >> 32
+
+	// The window is [t0 - 2^31 s, t0 + 2^31 s) around the reference time
+	// itself, not around its whole seconds.
+	fref := uint32(int64(t0.Nanosecond()) << 32 / nanosecondsPerSecond)
+	if sec < tref-secondsPerEra/2 ||
+		sec == tref-secondsPerEra/2 && t.Fraction < fref {
 		sec += secondsPerEra
-	} else if sec >= tref+secondsPerEra/2 {
+	} else if sec > tref+secondsPerEra/2 ||
+		sec == tref+secondsPerEra/2 && t.Fraction >= fref {
 		// Likewise, if it would be too far in the future, it's from the previous era
 		sec -= secondsPerEra
 	}
-
-	// nsec := (int64(t.Fraction)*nanosecondsPerSecond + 1<<31) >> 32
-	nsec := int64(t.Fraction) * nanosecondsPerSecond >> 32
 
 	return time.Unix(sec, nsec).UTC()
 }
